@@ -11,7 +11,8 @@ Record c15case := mkC15 {
   ca : c14case;                 (* original frame *)
   cb : c14case;                 (* re-encoded frame *)
   c_ren : list (list nat);      (* per dtype: feature number in ca -> feature number in cb *)
-  c_must : list (list nat) }.   (* per dtype: features of ca that must be returned (copy of the target) *)
+  c_must : list (list nat);     (* per dtype: features of ca that must be returned (copy of the target) *)
+  c_free : bool }.              (* colsample < 1 with two random seeds: the selections may differ *)
 
 Definition ren_out (ren out : list nat) : list nat := map (fun i => nth i ren 0%nat) out.
 
@@ -56,17 +57,39 @@ Definition musts_ok (c : c15case) : bool :=
   | _ => true       (* select raised: judged by C14 (and by the equal-error clause), not here *)
   end.
 
+(* free pairs (colsample < 1, two random seeds): the copy must be returned by the second run too *)
+Definition musts_ok_b (c : c15case) : bool :=
+  negb (c_free c) ||
+  match c_err (cb c) with
+  | IOk => forallb (fun p => forallb (must_ok (fst p)) (ren_out (fst (snd p)) (snd (snd p))))
+                   (combine (c_types (cb c)) (combine (c_ren c) (c_must c)))
+  | _ => true
+  end.
+
 Definition ties15 (c : c15case) : bool :=
   existsb (fun tc => has_ties (tc_in tc) || has_boundary (tc_in tc)) (c_types (ca c))
   || existsb (fun tc => has_ties (tc_in tc) || has_boundary (tc_in tc)) (c_types (cb c)).
 
-Definition C15_b (c : c15case) : bool := (same_b c || ties15 c) && musts_ok c.
+(* colsample < 1: the samples the implementation measured form a partition of the shuffled
+   feature list (every feature belongs to exactly one sample) *)
+Definition partition_b (c : c14case) : bool :=
+  match c_err c with
+  | IOk => forallb (fun tc => match tc_cs tc with
+                              | None => true
+                              | Some cs => list_eqb Nat.eqb (List.concat (cs_observed cs)) (cs_shuffled cs)
+                              end) (c_types c)
+  | _ => true
+  end.
+
+Definition C15_b (c : c15case) : bool :=
+  (c_free c || same_b c || ties15 c) && musts_ok c && musts_ok_b c
+  && partition_b (ca c) && partition_b (cb c).
 
 (* 0 both runs agree with the model & same selection | 1 a run disagrees with the model |
    2 the selections differ / the copy of the target is not returned | 4 equal up to exact ties *)
 Definition verdict15 (c : c15case) : nat :=
   if agree (ca c) && agree (cb c) then
-    (if negb (C15_b c) then 2%nat else if same_b c then 0%nat else 4%nat)
+    (if negb (C15_b c) then 2%nat else if same_b c || c_free c then 0%nat else 4%nat)
   else if ties15 c then (if C15_b c then 4%nat else 2%nat)
   else 1%nat.
 
